@@ -378,7 +378,7 @@ def run_case(ck, case, verbose=False, report=True):
 
   def compare(what, model, impl, skip=()):
     for f in U.FIELDS:
-      if f in skip: continue
+      if f in skip or f in U.MODEL_SKIP: continue
       a, b = model[f], [e for e in impl[f] if not stale(e)]
       if a != b:
         d = {'field': f, 'model_only': sorted(set(a) - set(b))[:8], 'impl_only': sorted(set(b) - set(a))[:8]}
@@ -570,7 +570,7 @@ def random_case(rng, g, idx):
 
 def gen_params(rng, spec, steps):
   """set_param calls on the construct argument `k` of replaced children (and of a few others): exact names and the
-  `*` (regular expression, re.match) form; every addressed component publishes k as a constant (s.kc //= k). At most
+  `*` (regular expression, re.match on every field name of the parent) form; every addressed component publishes k as a constant (s.kc //= k). At most
   one call reaches any component of any stage, so the value it gets does not depend on dict order."""
   import re
   trees = [spec]
@@ -583,11 +583,19 @@ def gen_params(rng, spec, steps):
     tok = path[-1]
     r = rng.random()
     if r < 0.55: last = tok
-    elif r < 0.8: last = tok[:2] + '*'                                   # c0* / d0*: 'c' or 'd' followed by 0s, then anything
-    else: last = (tok[:3].replace('[', '\\[') + '*') if '[' in tok else tok[:1] + '*'   # d0\[* : every element of list d0
+    # re.match is a prefix match and applies to EVERY field of the parent (signals, method ports too): the patterns below
+    # can only match component names (c<digit>…, d<digit>[…)
+    elif '[' in tok: last = tok[:2] + '\\[*' if r < 0.8 else 'd[0-9]x*'    # elements of this list / of every list
+    else: last = 'c[0-9]x*'                                               # every attribute child c0..c9
     pat = '.'.join(['top'] + list(path[:-1]) + [last, 'construct'])
     trial = params + [[pat, rng.randint(10, 19)]]
-    if all(sum(U.param_matches(p, q) for p, _ in trial) <= 1 for q in allp): params = trial
+    # (a `*` call whose pattern matches a proper prefix of an earlier, deeper call wipes the deeper one in
+    # ParamTreeNode.add_params — a set_param defect that has nothing to do with replacement: never generated)
+    def shadows(p, q):
+      a, b = p.split('.')[1:-1], q.split('.')[1:-1]
+      return len(a) < len(b) and U.param_matches(p, tuple(b[:len(a)]))
+    if all(sum(U.param_matches(p, q) for p, _ in trial) <= 1 for q in allp) and \
+       not any(shadows(p, q) or shadows(q, p) for p, _ in trial for q, _ in trial if p != q): params = trial
   for t in trees:
     for q in U.paths(t):
       if any(U.param_matches(p, q) for p, _ in params):
